@@ -368,9 +368,9 @@ func originsFor(c Cfg) (match, miss []string) {
 		addM(pp.Scheme + "://" + host + port)
 		if pp.Wild {
 			addM(pp.Scheme + "://a.b." + pp.Host + port)
-			addX(pp.Scheme + "://" + pp.Host + port)       // shallower: the base itself
-			addX(pp.Scheme + "://sub" + pp.Host + port)    // no dot
-			addX(pp.Scheme + "://." + pp.Host + port)      // empty label
+			addX(pp.Scheme + "://" + pp.Host + port)         // shallower: the base itself
+			addX(pp.Scheme + "://sub" + pp.Host + port)      // no dot
+			addX(pp.Scheme + "://." + pp.Host + port)        // empty label
 			addX(pp.Scheme + "://x." + pp.Host + "x" + port) // extended on the right
 		} else {
 			addX(pp.Scheme + "://x" + pp.Host + port)    // left-extended without dot
